@@ -17,6 +17,23 @@ def clean_key(key):
             .replace('\r', '/r').replace('\t', '/t'))[:200]
 
 
+# Heartbeat shared with the supervising process (mc/main.py): a counter of
+# finished evaluations. If it stops advancing the supervisor kills the unit
+# and reports non-termination -- needed because a call stuck inside C code
+# (e.g. catastrophic regular-expression backtracking) never lets a Python
+# signal handler run.
+HEARTBEAT = [None]
+_BEATS = [0]
+
+
+def beat():
+    _BEATS[0] += 1
+    hb = HEARTBEAT[0]
+    if hb is not None:
+        hb.seek(0)
+        hb.write(_BEATS[0].to_bytes(8, 'little'))
+
+
 class Acc(object):
     def __init__(self):
         self.evals = 0
@@ -32,6 +49,7 @@ class Acc(object):
 
     def outcome(self, name, n=1):
         self.outcomes[name] = self.outcomes.get(name, 0) + n
+        beat()
 
     def violation(self, key, msg, payload):
         key = clean_key(key)
